@@ -46,7 +46,7 @@ def run(pid, tier, seed, replay=None):
         rng.shuffle(ws)
         groups = [ws[i:i + 3] for i in range(0, min(len(ws), 9), 3)]
         for grp in groups:
-            cfg = {'la': rng.choice([0, 1, 2]), 'one': rng.choice([0, 1]), 'cost': rng.choice([0, 1]), 'rec': 1, 'match': rng.choice([1, 3])}
+            cfg = {'la': rng.choice([0, 1, 2]), 'one': rng.choice([0, 1]), 'cost': rng.choice([0, 1]), 'rec': rng.choice([1, 1, 0]), 'match': rng.choice([1, 3])}
             mode = rng.choice([0, 0, 0, 1, 2])
             cid = 'm%d' % ci
             ci += 1
@@ -99,11 +99,15 @@ def run(pid, tier, seed, replay=None):
             lo, hi = p['first_block'], p['first_block'] + p['nallocs']
             for f in p['frees']:
                 if f == NULLFREE:
-                    continue
-                if f < 0:
+                    bad = 'yaep_parse passed a null pointer to parse_free'
+                elif f < 0:
                     bad = 'yaep_parse passed to parse_free %s' % ('a block twice' if f <= -2 else 'a pointer parse_alloc never returned')
                 elif not (lo <= f < hi):
                     bad = 'yaep_parse passed to parse_free block %d which was allocated by an earlier parse' % f
+            if mode == 0 and p.get('root') is None and p['rc'] == 0:
+                got = set(f for f in p['frees'] if f >= 0)
+                if len(got) != p['nallocs']:
+                    bad = 'yaep_parse returned no tree but left %d of its %d parse_alloc blocks unreleased' % (p['nallocs'] - len(got), p['nallocs'])
             if mode in (0, 2) and p.get('nodes'):
                 freed = set(f for f in p['frees'] if f >= 0)
                 for nb in p.get('node_blocks', []):
@@ -123,8 +127,8 @@ def run(pid, tier, seed, replay=None):
         for o in r['ops']:
             if o['op'] == 'freet':
                 stats['trees_freed'] += 1
-                if any(f < 0 and f != NULLFREE for f in o['frees']):
-                    bad = 'yaep_free_tree passed to parse_free a block twice or an unknown pointer: %s' % [f for f in o['frees'] if f < 0 and f != NULLFREE][:3]
+                if any(f < 0 for f in o['frees']):
+                    bad = 'yaep_free_tree passed to parse_free a block twice, a null pointer or an unknown pointer: %s' % [('NULL' if f == NULLFREE else f) for f in o['frees'] if f < 0][:3]
                 elif mode == 0 and o['live_blocks'] != 0:
                     bad = 'after yaep_free_tree %d blocks of that parse are still allocated' % o['live_blocks']
         # terminal callback: once per TERM node of the freed tree
